@@ -64,6 +64,13 @@ def do_call(shape: dict, b: LBuilt, call: dict, twin: bool, rec: SweepRecorder |
     #   backward(tensors, aggregator, inputs, retain_graph, parallel_chunk_size)
     #   mtl_backward(losses, features, aggregator, tasks_params, shared_params, retain_graph, parallel_chunk_size)
     positional = bool(call.get("positional"))
+    # ... or with the documented defaults relied upon: retain_graph=False and parallel_chunk_size=None are not passed
+    defaults = bool(call.get("defaults"))
+    opt = {}
+    if retain:
+        opt["retain_graph"] = True
+    if k is not None:
+        opt["parallel_chunk_size"] = k
     try:
         if fn == "T" or twin:
             torch.autograd.backward(ts, grad_tensors=[torch.ones_like(t) for t in ts], inputs=ins,
@@ -72,6 +79,8 @@ def do_call(shape: dict, b: LBuilt, call: dict, twin: bool, rec: SweepRecorder |
             def go():
                 if positional:
                     backward(ts, Sum(), ins, retain, k)
+                elif defaults:
+                    backward(ts, Sum(), inputs=ins, **opt)
                 else:
                     backward(ts, Sum(), inputs=ins, retain_graph=retain, parallel_chunk_size=k)
             if rec is not None:
@@ -88,6 +97,8 @@ def do_call(shape: dict, b: LBuilt, call: dict, twin: bool, rec: SweepRecorder |
             def go():
                 if positional:
                     mtl_backward(*kw.values())
+                elif defaults:
+                    mtl_backward(**{a: v for a, v in kw.items() if a not in ("retain_graph", "parallel_chunk_size")}, **opt)
                 else:
                     mtl_backward(**kw)
             if rec is not None:
@@ -205,7 +216,8 @@ def present_values_and_arguments(item: dict, i: int) -> None:
         item["zeros"] = sorted(taskp[-1])                            # the last head is dead
     elif i % 3 == 2 and taskp:
         item["zeros"] = sorted({p for tp in taskp for p in tp})      # every head is dead
-    item["calls"] = [dict(c, positional=True) if (i + j) % 4 == 0 and c["fn"] != "T" else c
+    item["calls"] = [dict(c, positional=True) if (i + j) % 4 == 0 and c["fn"] != "T" else
+                     (dict(c, defaults=True) if (i + j) % 4 in (1, 2) and c["fn"] != "T" else c)
                      for j, c in enumerate(item["calls"])]
 
 
@@ -233,7 +245,8 @@ def describe(item: dict) -> str:
     g = " ".join(f"{i}:{nd['k']}" + (f"({','.join(map(str, nd['c']))})" if nd["c"] else "")
                  for i, nd in enumerate(item["shape"]["graph"], start=1))
     pres = (f" (leaves with value zero: {item['zeros']})" if item.get("zeros") else "") + \
-           (" (arguments passed positionally)" if any(c.get("positional") for c in item["calls"]) else "")
+           (" (arguments passed positionally)" if any(c.get("positional") for c in item["calls"]) else "") + \
+           (" (documented defaults not passed)" if any(c.get("defaults") for c in item["calls"]) else "")
     return f"graph [{g}] history " + " ; ".join(call_text(c) for c in item["calls"]) + pres
 
 
